@@ -255,7 +255,7 @@ def replay(job, call, cmp, compare_text):
         lines = [l for l in job["stdout"].splitlines() if l.strip()]
         lines = lines[next(i for i, l in enumerate(lines) if l.startswith("# epsilon")):]  # (warnings precede)
         cmp.checked.add("stdout")
-        cmp.equal("stdout:independent atoms", lines[0].split()[7:], [str(i + 1) for i in idx])
+        cmp.equal("stdout:independent atoms", lines[0].split()[6:], [str(i + 1) for i in idx])
         cmp.close("stdout:epsilon", [float(x) for x in lines[1].split()], np.ravel(eps), 0.6e-8)
         cmp.close("stdout:born", [[float(x) for x in l.split()] for l in lines[2:]], np.reshape(borns, (-1, 9)), 0.6e-8)
     elif name == "gnuplot_band":
